@@ -4,7 +4,8 @@
 (* the packet bytes, the predicate thresholds, the error class returned    *)
 (* and Bytes()/Packets() read back after the call (packets as indices of   *)
 (* the history step that wrote them, -1 = unknown bytes).  The spec state  *)
-(* is carried along the history; a rejected line ends that history.        *)
+(* is carried along the history (one state per accumulator of the history);*)
+(* a rejected line ends the history of that accumulator.                   *)
 (***************************************************************************)
 EXTENDS TraceBase, TsHeader
 A == INSTANCE Accumulator WITH mode <- "", buf <- <<>>, pkts <- <<>>, last <- ""
@@ -30,6 +31,7 @@ Step(s, e) ==   \* <<verdict, next state>>
   IF e.panic # "" THEN <<"panic", Skip>>
   ELSE IF ~e.input_same THEN <<"input-packet-modified", Skip>>
   ELSE IF ~e.snaps_same THEN <<"earlier-bytes-or-packets-result-changed-by-a-later-call", Skip>>
+  ELSE IF ~e.others_same THEN <<"another-accumulator-reads-differently-after-a-call-on-this-one", Skip>>
   ELSE IF e.op = "reset" THEN
        IF e.bytes # <<>> \/ e.pk # <<>> THEN <<"reset-not-empty", Skip>>
        ELSE <<"", Fresh>>
@@ -39,10 +41,16 @@ Step(s, e) ==   \* <<verdict, next state>>
        ELSE LET r == CHOOSE x \in c : TRUE IN <<"", [ok |-> TRUE, mode |-> r.mode, buf |-> r.buf, pkts |-> r.pkts]>>
   ELSE <<"harness-unknown-op", Skip>>
 
-Init == l = 1 /\ st = Fresh
+\* several accumulators may live side by side (e.acc names the one called): one specification state for each
+Accs == 0..3
+FreshAll == [a \in Accs |-> Fresh]
+Init == l = 1 /\ st = FreshAll
 Next == /\ l <= Len(Trace) /\ l' = l + 1
         /\ LET e == Trace[l]
-               s == IF e.first THEN Fresh ELSE st IN
-           IF ~s.ok THEN st' = Skip
-           ELSE LET r == Step(s, e) IN Report(l, r[1]) /\ st' = r[2]
+               all == IF e.first THEN FreshAll ELSE st
+               s == all[e.acc] IN
+           IF ~s.ok THEN st' = [all EXCEPT ![e.acc] = Skip]
+           ELSE LET r == Step(s, e) IN
+                /\ Report(l, r[1])
+                /\ st' = IF e.panic # "" THEN [a \in Accs |-> Skip] ELSE [all EXCEPT ![e.acc] = r[2]]
 =============================================================================
